@@ -16,13 +16,14 @@ namespace {
 
 enum { OP_SCHED_NOW = 1, OP_SCHED_FUT, OP_CANCEL, OP_SLEEP, OP_YIELD, OP_BEHAV, OP_MAIN_SLEEP, OP_EXTRA_REF, OP_BULK_SCHED };
 enum { B_SCHED_NOW = 1, B_SCHED_FUT, B_SCHED_THEN_CANCEL, B_RESCHED_SELF, B_CANCEL_OTHER };
-static const uint64_t FAR = 100000000000000000ull; // 1e17 ns: beyond anything the virtual clock can reach in a run
+static const uint64_t FAR = 100000000000000000ull; // 1e17 ns (3 years): only the accelerated clock of a long fair tail gets there
 
 struct Behav { int action; int64_t arg; int64_t arg2; };
 
 struct TaskM {
     struct aws_task task;
     int id = 0;
+    bool peer = false;          // bound to the second (peer) scheduler of the run
     bool sched_invoked = false, sched_returned = false; // current instance
     bool busy = false;          // an instance is scheduled and its function has not returned yet
     uint64_t instances = 0;     // instances scheduled so far
@@ -44,6 +45,12 @@ struct Ctx {
     struct aws_thread_scheduler *ts = nullptr;
     std::deque<TaskM> tasks;
     int sched_tid = -1;
+    // a second scheduler alive for the whole run: tasks bound to it are handed over by clients and by task functions running on the
+    // first scheduler's thread; main releases it after everything else is over
+    struct aws_thread_scheduler *peer = nullptr;
+    int peer_tid = -1;
+    bool peer_release_invoked = false, peer_final = false;
+    uint64_t peer_final_seq = 0;
     int total_refs = 0, releases_invoked = 0, releases_returned = 0;
     bool destroy_may_have_started = false; // the number of invoked releases equals the number of references
     bool final_checked = false;
@@ -89,8 +96,10 @@ void do_schedule(Ctx &c, TaskM &t, bool now_kind, int cls) {
     t.time = when;
     t.far = (!now_kind && (cls == 7 || cls == 8));
     uint64_t inst = t.instances;
-    if (now_kind) aws_thread_scheduler_schedule_now(c.ts, &t.task);
-    else aws_thread_scheduler_schedule_future(c.ts, &t.task, when);
+    struct aws_thread_scheduler *ts = t.peer ? c.peer : c.ts;
+    if (t.peer && sim::self() == c.sched_tid) sim::probe("task_handed_to_peer_scheduler_from_first_schedulers_thread");
+    if (now_kind) aws_thread_scheduler_schedule_now(ts, &t.task);
+    else aws_thread_scheduler_schedule_future(ts, &t.task, when);
     // The task may already have run - and the object been scheduled again by someone else - before this call returns (the caller
     // can be preempted after the hand-over): only the instance this call created may be marked.
     if (t.instances == inst) t.sched_returned = true;
@@ -100,8 +109,11 @@ void do_schedule(Ctx &c, TaskM &t, bool now_kind, int cls) {
 void do_cancel(Ctx &c, TaskM &t) {
     // legal only for a task that cannot have run: far-future, schedule call returned, not cancelled yet (DESIGN §5 C08)
     if (!t.sched_returned || !t.far || t.cancel_invoked || t.invocations) return;
+    // deep in the fair tail the virtual clock accelerates and can get near FAR: keep half of FAR as a margin (tens of thousands of
+    // fairly scheduled steps) between a cancel and the earliest moment its task could run
+    if (sim::now_boot() + FAR / 2 >= t.time) return;
     t.cancel_invoked = true;
-    aws_thread_scheduler_cancel_task(c.ts, &t.task);
+    aws_thread_scheduler_cancel_task(t.peer ? c.peer : c.ts, &t.task);
     c.ops_done++;
     sim::probe("cancel_issued");
 }
@@ -121,20 +133,22 @@ void task_fn(struct aws_task *task, void *arg, enum aws_task_status status) {
     t.inv_thread = sim::self();
     t.inv_boot = sim::now_boot();
     t.inv_seq = sim::seq();
-    c.hist = sim::mix64(c.hist, (uint64_t)t.id * 8 + (uint64_t)t.status * 4 + (uint64_t)(t.inv_thread == c.sched_tid));
+    const int own_tid = t.peer ? c.peer_tid : c.sched_tid;
+    c.hist = sim::mix64(c.hist, (uint64_t)t.id * 8 + (uint64_t)t.status * 4 + (uint64_t)(t.inv_thread == own_tid));
     sim::note(sim::PK_HARNESS, nullptr, 1000 + t.id * 2 + t.status);
-    if (c.final_checked) sim::violation("c08:invoked-after-release", "task %d invoked after the final release had returned", t.id);
+    if (t.peer ? c.peer_final : c.final_checked) sim::violation("c08:invoked-after-release", "task %d invoked after the final release had returned", t.id);
     if (status == AWS_TASK_STATUS_RUN_READY) {
-        if (sim::self() != c.sched_tid)
-            sim::violation("c08:wrong-thread", "task %d ran (RUN status) on T%d, the scheduler thread is T%d", t.id, sim::self(), c.sched_tid);
+        if (sim::self() != own_tid)
+            sim::violation("c08:wrong-thread", "task %d ran (RUN status) on T%d, its scheduler's thread is T%d", t.id, sim::self(), own_tid);
         if (t.time != 0 && sim::now_boot() < t.time)
             sim::violation("c08:ran-early", "task %d ran at virtual time %llu, before its time %llu", t.id, (unsigned long long)sim::now_boot(),
                            (unsigned long long)t.time);
         if (t.cancel_invoked) sim::violation("c08:ran-cancelled", "task %d ran although it was cancelled while it could not have run yet", t.id);
-        if (t.far) sim::violation("c08:ran-early", "far-future task %d ran", t.id);
+        if (t.far) sim::probe("far_future_task_ran_after_the_accelerated_tail_clock_passed_its_time"); // 'never before its time' is checked above
         for (const Behav &b : t.on_run) {
             TaskM &o = c.tasks[(size_t)b.arg % c.tasks.size()];
             if (&o == &t) continue;
+            if (t.peer && !o.peer) continue; // the peer's thread holds no reference to the first scheduler, which may be gone by now
             switch (b.action) {
                 case B_SCHED_NOW: if (!o.busy) { sim::probe("scheduled_from_task"); do_schedule(c, o, true, 0); } break;
                 case B_SCHED_FUT: if (!o.busy) { sim::probe("scheduled_from_task"); do_schedule(c, o, false, (int)b.arg2); } break;
@@ -147,7 +161,7 @@ void task_fn(struct aws_task *task, void *arg, enum aws_task_status status) {
             }
         }
     } else {
-        if (!t.cancel_invoked && !c.destroy_may_have_started)
+        if (!t.cancel_invoked && !(t.peer ? c.peer_release_invoked : c.destroy_may_have_started))
             sim::violation("c08:spurious-cancel", "task %d invoked with CANCELED status although it was not cancelled and the last reference is still held", t.id);
     }
     t.busy = false; // the function is done with the task object: it may be scheduled again
@@ -167,6 +181,7 @@ void final_checks(Ctx &c, const char *who) {
     if (c.sched_tid >= 0 && !sim::thread_done(c.sched_tid))
         sim::violation("c08:thread-alive", "%s: final release returned but the scheduler thread T%d has not exited", who, c.sched_tid);
     for (auto &t : c.tasks) {
+        if (t.peer) continue; // checked when the peer scheduler is released
         if (t.invoked_total != t.instances) {
             sim::violation("c08:lost-task",
                            "task %d (%s%s) was scheduled (call returned: %s) but never invoked although the final release has returned", t.id,
@@ -181,7 +196,7 @@ void do_release(Ctx &c, const char *who) {
     if (c.releases_invoked == c.total_refs) {
         c.destroy_may_have_started = true;
         int pending = 0;
-        for (auto &t : c.tasks) if (t.invoked_total != t.instances) pending++;
+        for (auto &t : c.tasks) if (!t.peer && t.invoked_total != t.instances) pending++;
         if (pending) sim::probe("final_release_with_pending_tasks");
     }
     sim::note(sim::PK_HARNESS, nullptr, 900);
@@ -248,6 +263,9 @@ RunInfo run(const sim::Plan &plan) {
         c.tasks[(size_t)i].id = i;
         aws_task_init(&c.tasks[(size_t)i].task, task_fn, &c.tasks[(size_t)i], "dsim");
     }
+    int npeer = (int)plan.get("peer_tasks", 0);
+    if (npeer > nt) npeer = nt;
+    for (int i = nt - npeer; i < nt; i++) c.tasks[(size_t)i].peer = true;
     for (const sim::Op &op : plan.ops)
         if (op.kind == OP_BEHAV) c.tasks[(size_t)op.a % c.tasks.size()].on_run.push_back(Behav{(int)op.c, op.d, op.b});
     c.nclients = (int)plan.get("nclients", 1);
@@ -281,6 +299,12 @@ RunInfo run(const sim::Plan &plan) {
     if (expect_null) sim::violation("c08:ctor", "thread creation failed (errno %d) but the constructor returned a scheduler", cf);
     if (cf && om == 2) sim::probe("ctor_retried_without_cpu_pin");
 
+    if (npeer > 0) {
+        c.peer_tid = sim::thread_count();
+        c.peer = aws_thread_scheduler_new(c.alloc, nullptr);
+        if (!c.peer) sim::violation("c08:ctor", "second aws_thread_scheduler_new returned NULL without an injected failure");
+        sim::probe("two_schedulers_alive");
+    }
     c.total_refs = 1;
     struct aws_thread cth[3];
     ClientArg cargs[3];
@@ -331,10 +355,26 @@ RunInfo run(const sim::Plan &plan) {
     }
     for (int i = 0; i < c.nclients; i++) { aws_thread_join(&cth[i]); aws_thread_clean_up(&cth[i]); }
     if (!c.final_checked) sim::violation("c08:harness", "not every release returned");
+    if (c.peer) {
+        // the first scheduler and all clients are gone: release the peer; everything handed to it must have been or now be invoked
+        if (plan.get("peer_linger", 0)) sim::sleep_ns((uint64_t)plan.get("peer_linger", 0));
+        c.peer_release_invoked = true;
+        aws_thread_scheduler_release(c.peer);
+        c.peer_final = true;
+        c.peer_final_seq = sim::seq();
+        if (!sim::thread_done(c.peer_tid)) sim::violation("c08:thread-alive", "release of the peer scheduler returned but its thread T%d has not exited", c.peer_tid);
+        for (auto &t : c.tasks) {
+            if (!t.peer) continue;
+            if (t.invoked_total != t.instances)
+                sim::violation("c08:lost-task", "task %d (peer scheduler, %s%s) was scheduled (call returned: %s) but never invoked although the release has returned", t.id,
+                               t.time == 0 ? "run-now" : "timed", t.cancel_invoked ? ", cancelled" : "", t.sched_returned ? "yes" : "no");
+            if (t.cancel_invoked && t.status != 1) sim::violation("c08:cancel-ignored", "cancelled task %d was not invoked with CANCELED status", t.id);
+        }
+    }
     // grace period: nothing may be invoked after the final release returned
     sim::sleep_ns(60000000000ull);
     for (auto &t : c.tasks)
-        if (t.invocations && t.inv_seq > c.final_seq) sim::violation("c08:invoked-after-release", "task %d was invoked after the final release returned", t.id);
+        if (t.invocations && t.inv_seq > (t.peer ? c.peer_final_seq : c.final_seq)) sim::violation("c08:invoked-after-release", "task %d was invoked after the final release returned", t.id);
     if (sim::mutex_held_any()) sim::violation("c08:lock-held", "a mutex is still locked at the end of the run");
     simalloc::expect_balanced("after final release");
     RunInfo ri;
@@ -371,6 +411,11 @@ void gen(uint64_t seed, int tier, sim::Plan &p) {
     bool allow_max = r.chance(0.03);
     bool scale = nclients > 0 && r.chance(tier ? 0.03 : 0.015);
     if (scale) { nt = (int)r.range(100, 250); p.cfg["ntasks"] = nt; }
+    // a quarter of the plans run a second scheduler next to the first; the last tasks of the pool belong to it
+    if (nt >= 2 && r.chance(0.25)) {
+        p.cfg["peer_tasks"] = r.range(1, nt / 2);
+        if (r.chance(0.3)) p.cfg["peer_linger"] = r.pick(std::vector<int64_t>{1000000, 1000000000ll, 40000000000ll});
+    }
     // task behaviours
     int nb = r.chance(0.5) ? (int)r.range(0, nt) : 0;
     for (int i = 0; i < nb; i++) {
@@ -433,7 +478,7 @@ std::string op_text(const sim::Op &op) {
 
 extern const Harness H_C08 = {
     "C08", "thread scheduler delivers each task once, on its own thread, whatever the timing", gen, run, op_text,
-    "Plans: 0-3 client threads (+ main) issue schedule_now / schedule_future (now+{0,1ns,1us,1ms,1s,31s,2h,FAR}, past, rarely UINT64_MAX-5) / cancel "
+    "Plans: one scheduler, in 25% of the plans a second one alive next to it (tasks handed to it by clients and from the first scheduler's thread); 0-3 client threads (+ main) issue schedule_now / schedule_future (now+{0,1ns,1us,1ms,1s,31s,2h,FAR}, past, rarely UINT64_MAX-5) / cancel "
     "(only far-future tasks whose schedule call returned) / virtual sleeps; task functions may schedule further tasks, re-schedule themselves, cancel far-future tasks or "
     "schedule-then-cancel from the scheduler thread; task objects are re-used once their previous instance is over; extra references are "
     "acquired and released; references held by main and/or clients so the last release comes from either, before or after the scheduler "
